@@ -41,7 +41,7 @@ Sub_Alias == {[Op("pub", 0) EXCEPT !.topic = t, !.ualias = a, !.retain = r] : t 
 \* is bound (topic and alias property), 8 + plen when the alias replaces the topic - the limit of Ck_Exact (30) falls between them
 Sub_Exact == {[Op("pub", 0) EXCEPT !.ualias = a, !.plen = n, !.units = 2] : a \in {0, 1}, n \in {20, 21, 22, 23, 24}}
 Sub_Validation == {Op("pub", 1), Op("pub", 2), [Op("pub", 0) EXCEPT !.retain = TRUE], [Op("sub", 0) EXCEPT !.need = "wild", !.n = 2],
-                   [Op("sub", 0) EXCEPT !.need = "shared", !.n = 2], [Op("pub", 0) EXCEPT !.need = "oversize"], [Op("sub", 0) EXCEPT !.need = "badfilter", !.n = 2]}
+                   [Op("sub", 0) EXCEPT !.need = "shared", !.n = 2], [Op("sub", 0) EXCEPT !.need = "sharedwild", !.n = 2], [Op("pub", 0) EXCEPT !.need = "oversize"], [Op("sub", 0) EXCEPT !.need = "badfilter", !.n = 2]}
 
 Ck(sp, rm) == [sp |-> sp, rm |-> rm, ka |-> -1, tam |-> -1, mqos |-> -1, mps |-> -1, ret |-> -1, wild |-> -1, subid |-> -1, shared |-> -1, acid |-> "", rc |-> 0]
 Ck_Plain == {Ck(0, -1), Ck(1, -1)}
@@ -53,7 +53,7 @@ Ck_Rm1Plain == {Ck(0, -1), Ck(1, -1), Ck(1, 1)}
 Ck_Fail == {Ck(0, -1), Ck(1, -1), [Ck(0, -1) EXCEPT !.rc = 135]}
 Ck_Ka == {[Ck(0, -1) EXCEPT !.ka = k] : k \in {-1, 1}}
 Ck_Alias == {[Ck(0, -1) EXCEPT !.tam = tm, !.ret = rt] : tm \in {0, 1, 2}, rt \in {-1, 0}}
-Ck_Caps == {[Ck(0, -1) EXCEPT !.mqos = q, !.ret = rt, !.wild = w, !.shared = w, !.mps = m] : q \in {-1, 1, 0}, rt \in {-1, 0}, w \in {-1, 0}, m \in {-1, 100}}
+Ck_Caps == {[Ck(0, -1) EXCEPT !.mqos = q, !.ret = rt, !.wild = w, !.shared = sh, !.mps = m] : q \in {-1, 1, 0}, rt \in {-1, 0}, w \in {-1, 0}, sh \in {-1, 0}, m \in {-1, 100}}
 \* a server with a small Maximum Packet Size that grants topic aliases: publishes of exact sizes around the limit (Sub_Exact)
 Ck_Exact == {[Ck(0, -1) EXCEPT !.tam = 2, !.mps = 30]}
 Ck_Acid == {Ck(0, -1), [Ck(0, -1) EXCEPT !.acid = "assigned"], Ck(1, -1)}
